@@ -9,56 +9,83 @@ from harness import pyobjs
 
 PROP = 'C14'
 LEAN_MODULES = ['Glom.Props.C14']
-FACT_FILES = ['TFacts', 'C14Facts']
+FACT_FILES = ['C14Facts']
 READY = True
 MANIFEST = dict(
     text="Lean 4 theorems about a literal model of the wildcard code on the shared heap kernel (identity = "
          "address, sharing and cycles representable): `_extend_children` yields exactly the children "
-         "(mapping values, sequence / set items, attribute values; raising accesses tolerated) [c14_star]; "
-         "the `'X'` loop — a growing list walked by index with an id()-visited set seeded with the root — is a "
-         "total function by well-founded recursion on (unexpanded addresses, unwalked items) for EVERY heap, "
-         "cyclic or not, computes the queue breadth-first traversal [c14_starstar_bfs], expands every "
-         "container at most once and at most |heap|+1 containers [c14_expand_once, c14_terminates]; the "
-         "evaluation of any path with any number of wildcards at any position equals 'map the remaining "
-         "steps over the entries, keep the successes' and never fails after a wildcard [c14_tail_independent]; "
-         "k wildcards give k list levels [c14_nesting]; `_apply_for_each` applies Assign/Delete to exactly "
-         "the entries, in order [c14_broadcast]; with ignore_missing=True an entry lacking the key is left "
-         "alone and the loop goes on, no PathDeleteError is ever raised [c14_ignore_skips_entry, "
-         "c14_ignore_deletes_entry, c14_ignore_never_path_delete_error, c14_ignore_missing_parent], a "
-         "`missing` factory plays no part below a wildcard [c14_missing_irrelevant]; checker theorem c14_model_checks; per-run facts obligation "
-         "by `decide` on the decision shapes regenerated from /repo's AST (incl. c14RemainderRoot: the path evaluated on every entry after a wildcard is rooted at T for T- and S-rooted paths); model tied to the code by "
-         "differential execution of real glom / assign / delete calls against the compiled Lean driver "
-         "(entries compared by address, heap snapshots after mutation, time budget against hangs).",
+         "(mapping values, sequence / set items, attribute values; raising accesses tolerated; user-registered "
+         "`iterate` handlers) [c14_star]; the `'X'` loop — a growing list walked by index with an id()-visited set "
+         "seeded with the root — is a total function by well-founded recursion on (unexpanded addresses, unwalked "
+         "items) for EVERY object graph and EVERY registry (the enumeration of children is a parameter), computes "
+         "the queue breadth-first traversal [c14_starstar_bfs_any_registry, c14_starstar_bfs], expands every "
+         "container at most once and at most n+1 containers [c14_expand_once_any_registry, c14_expand_once, "
+         "c14_terminates]; the evaluation of any path with any number of wildcards at any position equals 'map the "
+         "remaining steps over the entries, keep the successes' and never fails after a wildcard "
+         "[c14_tail_independent, c14_fails_only_before_first_wildcard]; WITH EFFECTS (method calls pop / append / "
+         "__next__ after wildcards, state = heap + list-allocation counter + call log) the model's loop is the "
+         "reference 'once per matched position, in order, on the evolving state' and keeps the heap well-formed "
+         "[c14_stateful_refines], every list of a result is a new object — no two positions share a list cell "
+         "[c14_fresh_lists], one object at n positions is n evaluations [c14_same_object_n_appends, "
+         "c14_same_object_n_pops], the pure evaluation is the call-free special case [c14_pure_conservative]; k "
+         "wildcards give k list levels [c14_nesting], `__stars__` is additive over Path parts incl. nested Paths "
+         "[c14_stars_append, c14_stars_path], `layers-1` flattenings are exactly right for every k "
+         "[c14_flatten_depth, c14_flatten_too_deep]; `_apply_for_each` applies Assign/Delete to exactly the "
+         "entries, in order [c14_broadcast]; ignore_missing / missing= per entry [c14_ignore_*, "
+         "c14_missing_irrelevant]; Coalesce / default= over wildcard paths: first alternative whose part in front "
+         "of the first wildcard can be walked, an empty list is a value [c14_coalesce, "
+         "c14_default_iff_unreachable]; the switch PATH_STAR: off = plain `P` steps, no list, on = wildcards, "
+         "irrelevant for texts without `*` segments [c14_path_star_off_plain, c14_path_star_off_value, "
+         "c14_path_star_on, c14_path_star_irrelevant]; checker theorems c14_model_checks, c14_model_checks_read; "
+         "per-run facts obligation by `decide` on the decision shapes regenerated from /repo's AST (canonical-form "
+         "comparison: invariant under renaming, module-level constants, or-chains of isinstance, list/tuple "
+         "temporaries, for/while, early returns); model tied to the code by differential execution of real glom / "
+         "assign / delete / Coalesce / Glommer calls against the compiled Lean driver (entries compared by "
+         "address, result lists by identity, heap snapshots and call logs after every read, time budget against "
+         "hangs).",
     note="trusted: Lean kernel + {propext, Classical.choice, Quot.sound}; extractor (extract/facts/c14.py); "
-         "harness/driver; CPython's dict / list / attribute access as modelled in Glom/Py/Access.lean; which "
-         "handler the default registry picks per class (C13's subject) enters as the functions keysH / getH "
-         "/ iterH / assignH of the class's MRO and two interpreter facts per class, validated on every "
-         "case; default registry only; set iteration order is observed by the harness and given to the "
-         "model; assigned values are immediate values; an Assign(missing=) whose path fails before its first wildcard is C11's subject.",
-    technique='Lean 4 well-founded definition (termination for every heap) + refinement to a breadth-first '
-              'reference + facts obligation by decide + differential correspondence',
+         "harness/driver; CPython's dict / list / attribute access as modelled in Glom/Py/Access.lean and the "
+         "methods list.pop / list.append / dict.pop / It.__next__ as modelled in Glom/Model/C14S.lean; which "
+         "handler the registry picks per class (C13's subject) enters as the functions keysH / getH / iterH / "
+         "assignH of the class's MRO, two interpreter facts per class and the user registration recorded per class, "
+         "validated on every case; set iteration order is observed by the harness and given to the model; assigned "
+         "values are immediate values; an Assign(missing=) whose path fails before its first wildcard is C11's "
+         "subject; Assign / Delete on user-registered types and set.pop() are skipped.",
+    technique='Lean 4 well-founded definition (termination for every graph and registry) + refinement to a '
+              'breadth-first / once-per-position reference with state + facts obligation by decide + differential '
+              'correspondence',
     ref='DESIGN.md §3 C14')
 RULE = ('type-directed: a target is generated as a heap graph of dict / OrderedDict / list / tuple / set / '
         'frozenset / attribute objects and their subclasses (with and without __dict__), containers whose '
-        'element access raises (RDict.__getitem__, RList.__iter__, RObj.__getattribute__), strings and other '
+        'element access raises (RDict.__getitem__, RList.__iter__, RObj.__getattribute__), shared iterators (It), '
+        'user container types registered on a Glommer (reversed iterate / iterate=False), strings and other '
         'immediate values, with shared sub-objects (DAG) and back edges (cycles, also through the root); a '
         'path with 0-3 wildcards (`*` / `**`) at every position among 0-3 plain segments is derived by walking '
         'the graph (mostly valid; absent keys, non-numeric indexes, `bad` names planted), spelled as dotted '
-        'text, Path(...) with T.__star__() / T.__starstar__() parts, a mixture with T steps, or one T chain; '
-        '15% of all cases spell the same path from S with the data as a scope variable (S[name].., S.name.., '
-        'Path(S, name, ..), glom(other, spec, scope={name: data})) and are held against the T-rooted evaluation '
-        'of the same data; '
-        '22% of the cases are Assign / Delete through the wildcards (final step as plain segment, T[..] or '
-        'T.attr; ignore_missing / missing= set or not), plus regular one- and two-level targets whose entries '
-        'have or LACK the final key / index / attribute in random positions (lacking ones in front), with '
-        'shared entries and entries of another kind; fixed cases cover the self-containing '
-        'list, shared children, strings and sets. entries are compared by address, scalars by value; a 3 s '
-        'alarm turns a hang into a reported case. non-trivial = the path has a wildcard and does not fail '
-        'before it; distinct = distinct (heap, target, spelling, mutation)')
-TRUSTED = ['handler choice of the default registry per class is an environment function validated on every case '
-           '(C13 proves the registry)', 'set iteration order is observed, not modelled']
-ASSUMPTIONS = ['default registry', 'PATH_STAR = True', 'assigned values are immediate values',
-               'Assign(missing=) whose path fails BEFORE its first wildcard is skipped (the backfill is C11)']
+        'text, Path(...) with T.__star__() / T.__starstar__() parts, a mixture with T steps, nested Path '
+        'arguments, or one T chain; method calls with an effect (pop / append / __next__, also failing ones) at '
+        'random positions of reads; 15% of all cases spell the same path from S with the data as a scope variable '
+        'and are held against the T-rooted evaluation of the same data; 22% of the cases are Assign / Delete '
+        'through the wildcards (final step as plain segment, T[..] or T.attr; ignore_missing / missing= set or '
+        'not), plus regular one- and two-level targets whose entries have or LACK the final key in random '
+        'positions; targets in which THE SAME OBJECT occurs at several positions directly under `*` / `**` (list '
+        'slots, dict values, attributes, DAG levels) with remainders that are further wildcards (identity of '
+        'every result list observed) or calls with an effect (final heap, returned values, call log); the switch '
+        'PATH_STAR off / on over targets with keys named `*` / `**` (read, assign, delete); Coalesce of 1-3 '
+        'wildcard paths and glom(default=) with unreachable / empty alternatives; fixed cases cover the '
+        'self-containing list, shared children, strings, sets, user types; thorough tier: exhaustively all 4096 '
+        'object graphs on three two-slot lists x 10 paths (wildcards alone, nested, with calls). entries are compared by address, '
+        'scalars by value, result lists by identity; a 3 s alarm turns a hang into a reported case. non-trivial = '
+        'the path has a wildcard and does not fail before it, or the switch is off, or a Coalesce / default case; '
+        'distinct = distinct (heap, target, spelling, mutation, switch, alternatives)')
+TRUSTED = ['handler choice of the registry per class is an environment function validated on every case '
+           '(C13 proves the registry)', 'set iteration order is observed, not modelled',
+           'list.pop / list.append / dict.pop / It.__next__ as modelled (validated on every case)']
+ASSUMPTIONS = ['default registry + three user registrations on a Glommer (iterate handlers)',
+               'assigned values and call arguments are immediate values',
+               'Assign(missing=) whose path fails BEFORE its first wildcard is skipped (the backfill is C11)',
+               'set.pop() and Assign / Delete on user-registered types are skipped',
+               'Coalesce with the default skip / skip_exc, over call-free paths']
 
 
 # ---------------------------------------------------------------- extra target classes
@@ -113,7 +140,111 @@ class SSub(set):
     """set subclass with a __dict__"""
 
 
-EXTRA = [RDict, RList, RObj, LSub, SList, DSub, TSub, TDict, SSub]
+class RevList(list):
+    """a user container type: registered (on the Glommer the case runs with) with an `iterate` handler that
+    yields the items in REVERSE order"""
+
+
+class RevTuple(tuple):
+    """the same for a tuple subclass (no __dict__)"""
+    __slots__ = ()
+
+
+class NoIterList(list):
+    """a user container type registered with `iterate=False`: not iterable for glom"""
+    __slots__ = ()
+
+
+def _rev_iter(x):
+    return reversed(list(list.__iter__(x) if isinstance(x, list) else tuple.__iter__(x)))
+
+
+USER_REG = {'RevList': 'rev', 'RevTuple': 'rev', 'NoIterList': 'off'}
+
+
+def user_glommer():
+    """a Glommer whose registry has the default types and the user container types"""
+    import glom
+    g = glom.Glommer()
+    g.register(RevList, iterate=_rev_iter)
+    g.register(RevTuple, iterate=_rev_iter)
+    g.register(NoIterList, iterate=False)
+    return g
+
+
+class Unmodelled(BaseException):
+    """raised by a harness class when it is used outside the behaviour the model describes (the case is
+    skipped); a BaseException so that no `except Exception` of glom can swallow it"""
+
+
+CALL_LOG = []     # (receiver, method name): every call of an instrumented method, in order
+
+
+class It:
+    """a shared iterator: `elems` (a list or tuple of the target) and `pos`; `__next__` steps it
+    (the attribute names are no attributes of any builtin type: `T.elems` on a dict is an AttributeError)"""
+    def __iter__(self):
+        return self
+
+    def __next__(self, *a):
+        CALL_LOG.append((self, '__next__'))
+        if a:
+            raise TypeError('__next__() takes no arguments')
+        d = object.__getattribute__(self, '__dict__')
+        items, pos = d.get('elems'), d.get('pos')
+        if type(pos) is not int or pos < 0 or not isinstance(items, (list, tuple)):
+            raise Unmodelled()
+        if pos >= len(items):
+            raise StopIteration
+        d['pos'] = pos + 1
+        return items[pos]
+
+
+FAIL_CLASSES = ['BadSpec', 'GlomError', 'PathAssignError', 'PathAccessError', 'KeyError', 'AttributeError',
+                'IndexError', 'ValueError', 'RuntimeError']
+
+
+def _fail(self, *a):
+    """raise an exception of the named class: GlomErrors that are no PathAccessError, a PathAccessError of
+    the callee's own, the builtin classes PathAccessError inherits from, others"""
+    CALL_LOG.append((self, 'fail'))
+    if len(a) != 1 or not isinstance(a[0], str):
+        raise TypeError('fail() takes the name of an exception class')
+    import glom
+    from glom import mutation
+    name = a[0]
+    if name == 'PathAccessError':
+        raise glom.PathAccessError(KeyError('k'), glom.Path('k'), 0)
+    if name == 'PathAssignError':
+        raise mutation.PathAssignError(KeyError('k'), glom.Path('k'), 'k')
+    if name in ('BadSpec', 'GlomError'):
+        raise getattr(glom, name)('raised by the callee')
+    if name in FAIL_CLASSES:
+        import builtins
+        raise getattr(builtins, name)('raised by the callee')
+    raise Unmodelled()
+
+
+def _logged(base, name):
+    def method(self, *a):
+        CALL_LOG.append((self, name))
+        return getattr(base, name)(self, *a)
+    method.__name__ = name
+    return method
+
+
+# the methods with an effect that paths call after a wildcard are instrumented on every class of the
+# harness (the builtin list / dict cannot be: their calls are seen through the state they leave)
+for _c in (LSub, SList, RList, RevList, NoIterList):
+    _c.pop = _logged(list, 'pop')
+    _c.append = _logged(list, 'append')
+for _c in (DSub, RDict):
+    _c.pop = _logged(dict, 'pop')
+# one class per layout has a method that raises what it is told to
+for _c in (It, LSub, DSub):
+    _c.fail = _fail
+
+EXTRA = [RDict, RList, RObj, LSub, SList, DSub, TSub, TDict, SSub, It, RevList, RevTuple, NoIterList]
 for _c in EXTRA:
     pyobjs.CLASSES.setdefault(_c.__name__, _c)
     if issubclass(_c, dict):
@@ -128,7 +259,7 @@ for _c in EXTRA:
         pyobjs.LAYOUT.setdefault(_c.__name__, 'inst')
 
 USED = ['dict', 'OrderedDict', 'list', 'tuple', 'set', 'frozenset', 'Obj', 'Obj2',
-        'RDict', 'RList', 'RObj', 'LSub', 'SList', 'DSub', 'TSub', 'TDict', 'SSub']
+        'RDict', 'RList', 'RObj', 'LSub', 'SList', 'DSub', 'TSub', 'TDict', 'SSub', 'It', 'RevList', 'RevTuple', 'NoIterList']
 
 
 def class_info():
@@ -141,7 +272,8 @@ def class_info():
             x = c.__new__(c)
         out.append([n, {'mro': [k.__name__ for k in c.__mro__],
                         'dict': hasattr(x, '__dict__'),
-                        'iter': callable(getattr(c, '__iter__', None)) and c not in (str, bytes)}])
+                        'iter': callable(getattr(c, '__iter__', None)) and c not in (str, bytes),
+                        'reg': USER_REG.get(n, '')}])
     return out
 
 
@@ -160,8 +292,9 @@ def jval(v):
 
 
 class HeapGen:
-    def __init__(self, rng, maxdepth, quirky):
+    def __init__(self, rng, maxdepth, quirky, user=False):
         self.rng, self.maxdepth, self.quirky = rng, maxdepth, quirky
+        self.user = user          # may the target contain user-registered container types?
         self.heap = []
         self.open_mut = []
         self.closed = []
@@ -172,9 +305,10 @@ class HeapGen:
         if lay == 'dict':
             return r.choice(['dict', 'dict', 'dict', 'OrderedDict', 'DSub', 'RDict'])
         if lay == 'list':
-            return r.choice(['list', 'list', 'list', 'SList', 'RList', 'LSub'])
+            return r.choice(['list', 'list', 'list', 'SList', 'RList', 'LSub']
+                            + (['RevList', 'RevList', 'NoIterList'] if self.user else []))
         if lay == 'tuple':
-            return r.choice(['tuple', 'tuple', 'TSub', 'TDict'])
+            return r.choice(['tuple', 'tuple', 'TSub', 'TDict'] + (['RevTuple', 'RevTuple'] if self.user else []))
         if lay == 'set':
             return r.choice(['set', 'frozenset', 'SSub'])
         return r.choice(['Obj', 'Obj', 'Obj2', 'RObj'])
@@ -188,7 +322,16 @@ class HeapGen:
             return {'r': r.choice(self.closed)}          # shared sub-object (DAG)
         if p < 0.40 and self.open_mut:
             return {'r': r.choice(self.open_mut)}        # back edge (cycle)
+        if p < 0.46 and self.closed:
+            # a TWIN: a second object equal (==) to an existing one but not the same object
+            src = self.heap[r.choice(self.closed)]
+            if src['v'] and src['k'] != 'set':
+                self.heap.append(json.loads(json.dumps(src)))
+                self.closed.append(len(self.heap) - 1)
+                return {'r': len(self.heap) - 1}
         lay = r.choice(['dict', 'dict', 'list', 'list', 'tuple', 'inst', 'set'])
+        if lay == 'inst' and r.random() < 0.25:
+            return self.iterator(depth)
         a = len(self.heap)
         cell = {'k': lay, 'c': self.cls(lay), 'v': []}
         self.heap.append(cell)
@@ -215,9 +358,37 @@ class HeapGen:
         return {'r': a}
 
 
-def gen_target(rng, quirky):
+def _iterator(self, depth):
+    """a shared iterator `It` over a list / tuple of the target (an existing one now and then)"""
+    r = self.rng
+    a = len(self.heap)
+    cell = {'k': 'inst', 'c': 'It', 'v': []}
+    self.heap.append(cell)
+    self.open_mut.append(a)
+    seqs = [b for b in self.closed if self.heap[b]['k'] in ('list', 'tuple')]
+    if seqs and r.random() < 0.4:
+        items = {'r': r.choice(seqs)}
+    else:
+        b = len(self.heap)
+        lay = r.choice(['list', 'list', 'tuple'])
+        n = r.choice([1, 2, 3])
+        sub = {'k': lay, 'c': self.cls(lay), 'v': []}
+        self.heap.append(sub)
+        sub['v'] = [self.node(depth + 2) for _ in range(n)]
+        self.closed.append(b)
+        items = {'r': b}
+    cell['v'] = [['elems', items], ['pos', {'i': r.choice([0, 0, 1, 2])}]]
+    self.open_mut.pop()
+    self.closed.append(a)
+    return {'r': a}
+
+
+HeapGen.iterator = _iterator
+
+
+def gen_target(rng, quirky, user=False):
     for _ in range(20):
-        g = HeapGen(rng, rng.choice([2, 3, 4, 5]), quirky)
+        g = HeapGen(rng, rng.choice([2, 3, 4, 5]), quirky, user)
         root = g.node(0)
         if g.heap or rng.random() < 0.1:
             return g.heap, root
@@ -303,6 +474,9 @@ def spell(rng, steps, style):
             parts.append({'t': [['x', None]]})
         elif st[0] == 'X':
             parts.append({'t': [['X', None]]})
+        elif st[0] == 'call':
+            # a method call: the ops `.` name, `(` arguments of one T expression
+            parts.append({'t': [['.', {'s': st[1]}], ['(', list(st[2])]]})
         else:
             kind, key = st[1], st[2]
             if style == 'path' or rng.random() < 0.5:
@@ -311,6 +485,15 @@ def spell(rng, steps, style):
                 parts.append({'t': [['.', key]]})
             else:
                 parts.append({'t': [['[', key]]})
+    if style == 'nested' and len(parts) >= 2:
+        # some of the arguments of Path(...) are Path objects themselves (any nesting)
+        def nest(ps, depth):
+            if len(ps) < 2 or depth > 2:
+                return ps
+            i = rng.randrange(len(ps))
+            j = rng.randrange(i + 1, len(ps) + 1)
+            return ps[:i] + [{'path': nest(ps[i:j], depth + 1)}] + nest(ps[j:], depth + 1)
+        return {'parts': nest(parts, 0)}
     if style == 'tchain':
         # one T expression: T.a.__star__()['b']…  (plain segments become [...] / .attr)
         chain = []
@@ -325,12 +508,17 @@ def spell(rng, steps, style):
 
 def gen_case(rng, quirk_rate):
     quirky = rng.random() < quirk_rate
-    heap, root = gen_target(rng, quirky)
+    m = rng.random()
+    # (reads only: Assign / Delete on user-registered types is the registry's subject)
+    heap, root = gen_target(rng, quirky, user=(m >= 0.22 and rng.random() < 0.3))
     nwild = rng.choice([0, 1, 1, 1, 2, 2, 3])
     nseg = rng.choice([0, 0, 1, 1, 2, 3])
     steps = gen_steps(rng, heap, root, nseg, nwild)
-    m = rng.random()
     mut = None
+    if m >= 0.22 and rng.random() < 0.22:
+        # a step with an effect (a method call) at a random position of a read
+        for _ in range(rng.choice([1, 1, 2])):
+            steps.insert(rng.randrange(len(steps) + 1), rng.choice(CALLS))
     if m < 0.22:
         # Assign / Delete through the wildcards: the path ends in a plain segment
         key = rng.choice([{'s': 'k'}, {'s': 'a'}, {'s': '0'}, {'i': 0}, {'s': 'zz'}])
@@ -340,12 +528,252 @@ def gen_case(rng, quirk_rate):
             mut = {'kind': 'assign', 'val': val, 'missing': rng.choice([None, None, 'dict', 'list'])}
         else:
             mut = {'kind': 'delete', 'ignore': rng.random() < 0.5}
-    can_text = all(st[0] != 'seg' or text_ok(st[2]) for st in steps) and steps
-    styles = ['path', 'mixed', 'tchain'] + (['text', 'text', 'text'] if can_text else [])
+    can_text = all(st[0] != 'call' and (st[0] != 'seg' or text_ok(st[2])) for st in steps) and steps
+    styles = ['path', 'mixed', 'tchain', 'nested'] + (['text', 'text', 'text'] if can_text else [])
     style = rng.choice(styles)
     # (the final step of a mutation path is spelled like any other: plain segment, T[...] or T.attr)
     sp = spell(rng, steps, style)
     return {'heap': heap, 'target': root, 'spelling': sp, 'mut': mut}
+
+
+# method calls with an effect (and their failing variants): ('call', name, [argument values])
+CALLS = [('call', 'pop', []), ('call', 'pop', []), ('call', 'pop', [{'i': 0}]), ('call', 'pop', [{'i': -1}]),
+         ('call', 'pop', [{'s': 'k'}]), ('call', 'pop', [{'s': 'k'}, None]), ('call', 'pop', [{'i': 1}]),
+         ('call', 'append', [{'i': 9}]), ('call', 'append', [{'s': 'v'}]), ('call', '__next__', []),
+         ('call', '__next__', []), ('call', 'pop', [{'i': 1}, {'i': 2}, {'i': 3}]), ('call', 'append', []),
+         ('call', 'pop', [{'b': True}])] + [('call', 'fail', [{'s': c}]) for c in
+                                            ['BadSpec', 'GlomError', 'PathAssignError', 'PathAccessError',
+                                             'KeyError', 'AttributeError', 'IndexError', 'RuntimeError']]
+
+
+def shared_cases(rng, n):
+    """targets in which THE SAME OBJECT occurs at several positions directly under a wildcard — in a
+    list, as several values of a dict / attributes of an object, at several places of a DAG below `**` —
+    and remainders that tell one evaluation per position from one per object:
+      (a) further wildcards: every position of the result must be a list of its own;
+      (b) calls with an effect (`pop()`, `pop(i)`, `pop(k)`, `append(v)`, `__next__()` on lists, dicts and
+          shared iterators, also behind further segments and followed by further steps): the state the
+          target is left in, the values returned position by position and the calls made"""
+    for _ in range(n):
+        heap = []
+
+        def new(cell):
+            heap.append(cell)
+            return {'r': len(heap) - 1}
+
+        def scalar():
+            return jval(rng.choice([None, True, 0, 1, 7, 'x', 'abc']))
+
+        pool = []
+
+        def pooled(kinds=None):
+            kind = rng.choice(kinds or ['list', 'list', 'list', 'dict', 'it', 'inst', 'tuple', 'nested'])
+            def item():
+                return rng.choice(pool) if pool and rng.random() < 0.3 else scalar()
+            if kind == 'list':
+                return new({'k': 'list', 'c': rng.choice(['list', 'list', 'list', 'LSub', 'SList', 'RList']),
+                            'v': [item() for _ in range(rng.choice([0, 1, 2, 3, 3, 4]))]})
+            if kind == 'tuple':
+                return new({'k': 'tuple', 'c': rng.choice(['tuple', 'TSub']),
+                            'v': [item() for _ in range(rng.choice([1, 2, 3]))]})
+            if kind == 'dict':
+                keys = rng.sample(['k', 'a', 0, 1, 'z'], rng.choice([0, 1, 2, 3]))
+                return new({'k': 'dict', 'c': rng.choice(['dict', 'dict', 'OrderedDict', 'DSub', 'RDict']),
+                            'v': [[jval(k), item()] for k in keys]})
+            if kind == 'inst':
+                keys = rng.sample(['k', 'a', 'b'], rng.choice([0, 1, 2]))
+                return new({'k': 'inst', 'c': rng.choice(['Obj', 'Obj2']), 'v': [[k, item()] for k in keys]})
+            if kind == 'it':
+                seqs = [p for p in pool if heap[p['r']]['k'] in ('list', 'tuple')]
+                items = rng.choice(seqs) if seqs and rng.random() < 0.5 else pooled(['list', 'list', 'tuple'])
+                return new({'k': 'inst', 'c': 'It', 'v': [['elems', items], ['pos', {'i': rng.choice([0, 0, 0, 1, 2])}]]})
+            # nested: a list of (shared) lists
+            inner = [pooled(['list']) for _ in range(rng.choice([1, 2]))]
+            return new({'k': 'list', 'c': 'list', 'v': [rng.choice(inner) for _ in range(rng.choice([2, 3]))]})
+
+        for _ in range(rng.choice([1, 1, 2, 3])):
+            pool.append(pooled())
+
+        def container(slots):
+            kind = rng.choice(['list', 'list', 'dict', 'inst', 'tuple'])
+            if kind == 'dict':
+                return new({'k': 'dict', 'c': rng.choice(['dict', 'OrderedDict']),
+                            'v': [[{'s': 'g%d' % i}, x] for i, x in enumerate(slots)]})
+            if kind == 'inst':
+                return new({'k': 'inst', 'c': 'Obj', 'v': [['g%d' % i, x] for i, x in enumerate(slots)]})
+            return new({'k': kind, 'c': {'list': rng.choice(['list', 'LSub']), 'tuple': 'tuple'}[kind], 'v': slots})
+
+        def twin(ref):
+            # an object equal to a pooled one but not the same object
+            return new(json.loads(json.dumps(heap[ref['r']])))
+
+        def slots(nmin, nmax):
+            out = []
+            for _ in range(rng.randint(nmin, nmax)):
+                p = rng.random()
+                out.append(rng.choice(pool) if p < 0.65 else twin(rng.choice(pool)) if p < 0.78
+                           else scalar() if p < 0.9 else pooled())
+            if len(out) >= 2 and rng.random() < 0.8:
+                # the same object at two positions, for sure
+                i, j = rng.sample(range(len(out)), 2)
+                out[i] = out[j] = rng.choice(pool)
+            return out
+
+        depth = rng.choice([1, 1, 1, 2])
+        if depth == 1:
+            root = container(slots(2, 5))
+        else:
+            # a DAG: intermediate containers whose slots are the shared objects
+            mids = [container(slots(1, 3)) for _ in range(rng.randint(2, 3))]
+            if rng.random() < 0.4:
+                mids.append(rng.choice(mids))
+            root = container(mids)
+        steps = []
+        if rng.random() < 0.25:
+            root = new({'k': 'dict', 'c': 'dict', 'v': [[{'s': 'rows'}, root], [{'s': 'n'}, {'i': 0}]]})
+            steps.append(('seg', 'key', {'s': 'rows'}))
+        if depth == 1:
+            wild = rng.choice([[('x',)], [('x',)], [('x',)], [('X',)], [('X',)]])
+        else:
+            wild = rng.choice([[('x',), ('x',)], [('X',)], [('X',)], [('x',), ('X',)], [('X',), ('x',)]])
+        steps += wild
+        r = rng.random()
+        if r < 0.3:
+            # (a) further wildcards only: identity of the result's lists
+            steps += rng.choice([[('x',)], [('X',)], [('x',), ('x',)], []])
+        elif r < 0.75:
+            # (b) a call with an effect, maybe behind a segment, maybe followed by more steps
+            if rng.random() < 0.25:
+                steps.append(('seg', 'key', rng.choice([{'s': 'elems'}, {'s': 'k'}, {'i': 0}, {'s': 'a'}])))
+            steps.append(rng.choice(CALLS))
+            f = rng.random()
+            if f < 0.15:
+                steps.append(rng.choice([('x',), ('X',)]))
+            elif f < 0.3:
+                steps.append(('seg', 'key', rng.choice([{'s': 'k'}, {'i': 0}])))
+            elif f < 0.4:
+                steps.append(rng.choice(CALLS))
+        else:
+            # a call in front of the wildcard and one behind it
+            steps.insert(rng.randrange(len(steps)), rng.choice(CALLS))
+            steps.append(rng.choice(CALLS + [('x',)]))
+        style = rng.choice(['path', 'mixed', 'mixed', 'tchain', 'tchain'])
+        if all(st[0] != 'call' and (st[0] != 'seg' or text_ok(st[2])) for st in steps) and rng.random() < 0.4:
+            style = 'text'
+        yield {'heap': heap, 'target': root, 'spelling': spell(rng, steps, style), 'mut': None}
+
+
+def mode_cases(rng, n):
+    """the module switch PATH_STAR: targets whose dicts / objects have keys / attributes NAMED `*` and `**`
+    next to ordinary ones, dotted texts over the segments `*`, `**`, a, k, 0, zz — read, assigned to and
+    deleted — with the switch off (the segments are plain keys) and on (they are wildcards), and the same
+    paths spelled with Path(...) parts, which the switch does not touch"""
+    for _ in range(n):
+        heap = []
+
+        def node(depth):
+            p = rng.random()
+            if depth >= 3 or p < 0.25:
+                return jval(rng.choice([None, 0, 1, 7, 'x', '*']))
+            a = len(heap)
+            lay = rng.choice(['dict', 'dict', 'dict', 'inst', 'list'])
+            cell = {'k': lay, 'c': {'dict': rng.choice(['dict', 'dict', 'OrderedDict', 'DSub']),
+                                    'inst': rng.choice(['Obj', 'Obj2']), 'list': 'list'}[lay], 'v': []}
+            heap.append(cell)
+            if lay == 'dict':
+                keys = rng.sample(['*', '*', '**', '**', 'a', 'k', 0], rng.choice([1, 2, 3, 4]))
+                keys = list(dict.fromkeys(keys))
+                cell['v'] = [[jval(k), node(depth + 1)] for k in keys]
+            elif lay == 'inst':
+                keys = list(dict.fromkeys(rng.sample(['*', '**', 'a', 'k'], rng.choice([1, 2, 3]))))
+                cell['v'] = [[k, node(depth + 1)] for k in keys]
+            else:
+                cell['v'] = [node(depth + 1) for _ in range(rng.choice([1, 2, 3]))]
+            return {'r': a}
+
+        root = node(0)
+        if not heap:
+            continue
+        # walk the graph along existing keys (those named `*` / `**` preferred); a missing key now and then
+        segs = []
+        for _attempt in range(12):
+            cur, segs = root, []
+            for _ in range(rng.choice([1, 1, 2, 2, 3])):
+                ch = [(key, c) for _, key, c in kids(heap, cur) if key is not None]
+                starred = [(key, c) for key, c in ch if key.get('s') in ('*', '**')]
+                if starred and rng.random() < 0.7:
+                    ch = starred
+                if not ch:
+                    break
+                key, cur = rng.choice(ch)
+                segs.append(str(key['i']) if 'i' in key else key['s'])
+            if any(x in ('*', '**') for x in segs):
+                break
+        if not any(x in ('*', '**') for x in segs):
+            segs.append(rng.choice(['*', '**']))
+        if rng.random() < 0.2:
+            segs.insert(rng.randrange(len(segs) + 1), rng.choice(['zz', '*', '**', '0']))
+        star = rng.random() < 0.3
+        mut = None
+        r = rng.random()
+        if r < 0.2:
+            mut = {'kind': 'assign', 'val': jval(rng.choice([9, 'v'])), 'missing': None}
+        elif r < 0.4:
+            mut = {'kind': 'delete', 'ignore': rng.random() < 0.5}
+        if mut and star and segs[-1] in ('*', '**'):
+            segs.append(rng.choice(['k', 'a']))              # with the switch on a mutation path ends in a key
+        if rng.random() < 0.25:
+            # the same segments as arguments of Path(...): plain segments whatever the switch says
+            sp = {'parts': [{'seg': {'s': x}} for x in segs]}
+        else:
+            sp = {'text': '.'.join(segs)}
+        yield {'heap': heap, 'target': root, 'spelling': sp, 'mut': mut, 'path_star': star}
+
+
+def coalesce_cases(rng, n):
+    """wildcard paths as alternatives of a Coalesce (1-3 paths; with and without a default) and under
+    glom(…, default=): alternatives whose part in front of the first wildcard is missing, alternatives whose
+    wildcard matches nothing (an empty list is a value: it is taken), alternatives failing behind a wildcard"""
+    done = 0
+    while done < n:
+        heap, root = gen_target(rng, False, user=rng.random() < 0.2)
+        if not heap:
+            continue
+        alts = []
+        for _ in range(rng.choice([1, 2, 2, 3])):
+            steps = gen_steps(rng, heap, root, rng.choice([0, 1, 1, 2]), rng.choice([0, 1, 1, 2]))
+            if rng.random() < 0.45:
+                # a missing key in front (the alternative is not reachable)
+                steps.insert(0, ('seg', 'key', rng.choice([{'s': 'zz'}, {'s': 'nope'}, {'i': 99}])))
+            if not steps:
+                steps = [('x',)]
+            can_text = all(st[0] != 'seg' or text_ok(st[2]) for st in steps)
+            style = rng.choice(['path', 'mixed', 'tchain', 'nested'] + (['text', 'text'] if can_text else []))
+            alts.append(spell(rng, steps, style))
+        via = 'glom' if len(alts) == 1 and rng.random() < 0.6 else 'coalesce'
+        default = True if via == 'glom' else rng.random() < 0.6
+        done += 1
+        yield {'heap': heap, 'target': root, 'mut': None,
+               'co': {'alts': alts, 'default': default, 'via': via}}
+
+
+def exhaustive_cases():
+    """small scope, exhaustively (thorough tier): ALL object graphs on three two-slot lists — every slot is
+    one of the three lists or a number, so every pattern of sharing, self-reference and mutual reference
+    occurs, 4096 graphs — under ten paths: wildcards alone, nested, followed by an index, by calls with an effect"""
+    import itertools
+    slot_vals = [{'r': 0}, {'r': 1}, {'r': 2}, {'i': 7}]
+    call = lambda name, args: [['.', {'s': name}], ['(', args]]
+    paths = [{'text': '*'}, {'text': '**'}, {'text': '*.*'}, {'text': '**.*'}, {'text': '*.**'}, {'text': '**.0'},
+             {'parts': [{'t': [['x', None]] + call('pop', [])}]},
+             {'parts': [{'t': [['X', None]] + call('pop', [])}]},
+             {'parts': [{'t': [['x', None]] + call('append', [{'i': 9}])}]},
+             {'parts': [{'t': [['X', None]] + call('pop', [{'i': 0}]) + [['x', None]]}]}]
+    for slots in itertools.product(range(4), repeat=6):
+        heap = [{'k': 'list', 'c': 'list', 'v': [slot_vals[slots[2 * a]], slot_vals[slots[2 * a + 1]]]}
+                for a in range(3)]
+        for sp in paths:
+            yield {'heap': heap, 'target': {'r': 0}, 'spelling': sp, 'mut': None}
 
 
 def fixed_cases():
@@ -370,6 +798,28 @@ def fixed_cases():
               {'k': 'dict', 'c': 'dict', 'v': [[{'s': 'k'}, {'i': 1}]]},
               {'k': 'dict', 'c': 'dict', 'v': [[{'s': 'k'}, {'i': 2}]]},
               {'k': 'dict', 'c': 'dict', 'v': [[{'s': 'k'}, {'i': 3}]]}]
+    # one object at two positions under a wildcard: one evaluation (one list, one call) per position
+    twice = [{'k': 'list', 'c': 'list', 'v': [{'r': 1}, {'r': 1}]},
+             {'k': 'list', 'c': 'list', 'v': [{'i': 1}, {'i': 2}, {'i': 3}]}]
+    for t in ('*.*', '**.*', '*.**', '**'):
+        out.append({'heap': twice, 'target': {'r': 0}, 'spelling': {'text': t}, 'mut': None})
+    for name, args in (('pop', []), ('append', [{'i': 9}]), ('pop', [{'i': 0}])):
+        for w in ('x', 'X'):
+            out.append({'heap': twice, 'target': {'r': 0}, 'mut': None,
+                        'spelling': {'parts': [{'t': [[w, None], ['.', {'s': name}], ['(', args]]}]}})
+    shared_it = [{'k': 'dict', 'c': 'dict', 'v': [[{'s': 'x'}, {'r': 1}], [{'s': 'y'}, {'r': 1}]]},
+                 {'k': 'inst', 'c': 'It', 'v': [['elems', {'r': 2}], ['pos', {'i': 0}]]},
+                 {'k': 'tuple', 'c': 'tuple', 'v': [{'s': 'a'}, {'s': 'b'}, {'s': 'c'}]}]
+    out.append({'heap': shared_it, 'target': {'r': 0}, 'mut': None,
+                'spelling': {'parts': [{'t': [['x', None]]}, {'t': [['.', {'s': '__next__'}], ['(', []]]}]}})
+    # user-registered container types (on a Glommer): items in the order of the user's `iterate` handler,
+    # none for `iterate=False`; `get` of such a class is the auto default getattr
+    user = [{'k': 'list', 'c': 'list', 'v': [{'r': 1}, {'r': 2}, {'r': 3}]},
+            {'k': 'list', 'c': 'RevList', 'v': [{'i': 1}, {'r': 3}, {'i': 3}]},
+            {'k': 'list', 'c': 'NoIterList', 'v': [{'i': 5}]},
+            {'k': 'tuple', 'c': 'RevTuple', 'v': [{'s': 'a'}, {'s': 'b'}]}]
+    for t in ('*', '**', '*.*', '*.0', '**.*', '1.*', '1.**'):
+        out.append({'heap': user, 'target': {'r': 0}, 'spelling': {'text': t}, 'mut': None})
     out.append({'heap': nested, 'target': {'r': 0}, 'spelling': {'text': '*.*.k'}, 'mut': None})
     out.append({'heap': nested, 'target': {'r': 0}, 'spelling': {'text': '*.*.k'},
                 'mut': {'kind': 'assign', 'val': {'i': 9}}})
@@ -514,7 +964,7 @@ def generate(rng, tier, scale, **focus):
 
     def maybe_s(c):
         # (a wildcard-free, empty path spelled from S would be the bare scope: never generated)
-        has_steps = bool(c['spelling'].get('text') or c['spelling'].get('parts'))
+        has_steps = bool(c.get('spelling') and (c['spelling'].get('text') or c['spelling'].get('parts')))
         return with_sroot(rng, c) if has_steps and rng.random() < sp else c
 
     for c in fixed_cases():
@@ -527,6 +977,15 @@ def generate(rng, tier, scale, **focus):
         yield maybe_s(c)
     for c in ragged_cases(rng, (260 if tier == 'quick' else 6000) * scale):
         yield maybe_s(c)
+    for c in shared_cases(rng, (420 if tier == 'quick' else 9000) * scale):
+        yield maybe_s(c)
+    if tier != 'quick' and not focus:
+        for c in exhaustive_cases():
+            yield c
+    for c in mode_cases(rng, (160 if tier == 'quick' else 4000) * scale):
+        yield c
+    for c in coalesce_cases(rng, (160 if tier == 'quick' else 4000) * scale):
+        yield c
 
 
 def corpus():
@@ -590,6 +1049,20 @@ def build_spec(sp, dv, sroot=None):
     same path spelled from S, the data being the scope variable `name`: S[name]… / S.name… /
     Path(S, name, …)"""
     from glom import Path, T, S
+
+    def apply(t, op, arg):
+        if op == 'x':
+            return t.__star__()
+        if op == 'X':
+            return t.__starstar__()
+        if op == '.':
+            name = dv(arg)
+            # T reserves dunder attributes: T.__('next__') spells `.__next__`
+            return t.__(name[2:]) if name.startswith('__') else getattr(t, name)
+        if op == '(':
+            return t(*[dv(a) for a in arg])
+        return t[dv(arg)]
+
     if 'text' in sp and not sroot:
         return sp['text'], len([s for s in sp['text'].split('.') if s in ('*', '**')])
     src_parts = parts_of_text(sp['text']) if 'text' in sp else sp['parts']
@@ -600,14 +1073,8 @@ def build_spec(sp, dv, sroot=None):
             t = head()
             nw = 0
             for op, arg in src_parts[0]['t']:
-                if op == 'x':
-                    t = t.__star__(); nw += 1
-                elif op == 'X':
-                    t = t.__starstar__(); nw += 1
-                elif op == '.':
-                    t = getattr(t, dv(arg))
-                else:
-                    t = t[dv(arg)]
+                nw += op in ('x', 'X')
+                t = apply(t, op, arg)
             return t, nw
     parts = []
     nw = 0
@@ -616,19 +1083,16 @@ def build_spec(sp, dv, sroot=None):
     for p in src_parts:
         if 'seg' in p:
             parts.append(dv(p['seg']))
+        elif 'path' in p:
+            # a Path object among the arguments of Path(...)
+            sub, k = build_spec({'parts': p['path']}, dv)
+            parts.append(sub)
+            nw += k
         else:
             t = T
             for op, arg in p['t']:
-                if op == 'x':
-                    t = t.__star__()
-                    nw += 1
-                elif op == 'X':
-                    t = t.__starstar__()
-                    nw += 1
-                elif op == '.':
-                    t = getattr(t, dv(arg))
-                else:
-                    t = t[dv(arg)]
+                nw += op in ('x', 'X')
+                t = apply(t, op, arg)
             parts.append(t)
     return Path(*parts), nw
 
@@ -654,20 +1118,63 @@ def run_impl(case):
         return out
     target = dv(case['target'])
     sroot = case.get('sroot')
-    spec, nw = build_spec(case['spelling'], dv, sroot)
+    import glom.core as gcore
+    import warnings
+    star_before = gcore.PATH_STAR
+    gcore.PATH_STAR = bool(case.get('path_star', True))
+    try:
+        with warnings.catch_warnings():
+            warnings.simplefilter('ignore')
+            return _run(case, heap, objs, dv, ids, target, sroot)
+    finally:
+        gcore.PATH_STAR = star_before
+
+
+DEFAULT = pyobjs.Sentinel('DEFAULT')
+
+
+def _run(case, heap, objs, dv, ids, target, sroot):
+    import glom
+    from glom import PathAccessError
+    co = case.get('co')
+    if co:
+        built = [build_spec(a, dv) for a in co['alts']]
+        nw = max(k for _, k in built)
+        kw = {'default': DEFAULT} if co['default'] else {}
+        if co['via'] == 'glom':
+            spec, gkw_extra = built[0][0], kw
+        else:
+            spec, gkw_extra = glom.Coalesce(*[b for b, _ in built], **kw), {}
+    else:
+        spec, nw = build_spec(case['spelling'], dv, sroot)
+        gkw_extra = {}
     if sroot:
         # the data is a scope variable; the target of the call is something else
         gtarget, gkw = {'unrelated': True}, {'scope': {sroot['var']: target}}
     else:
-        gtarget, gkw = target, {}
+        gtarget, gkw = target, dict(gkw_extra)
+    if any(cell['c'] in USER_REG for cell in heap):
+        # user container types: the call goes through a Glommer whose registry knows them
+        # (glommer.glom(t, s, **kw) is glom(t, s, scope=glommer.scope, **kw))
+        sc = dict(user_glommer().scope)
+        sc.update(gkw.get('scope', {}))
+        gkw['scope'] = sc
 
     def addr_of(v):
         return ids.get(id(v))
 
+    labels = {}
+
     def enc_res(x, depth):
+        # a list of the result that is not an object of the target is a list cell of the result: it
+        # carries its identity (first-visit number), so that one list object at two positions shows
         if depth > 0 and type(x) is list and id(x) not in ids:
-            return {'l': [enc_res(y, depth - 1) for y in x]}
+            lab = labels.setdefault(id(x), len(labels))
+            return {'l': [enc_res(y, depth - 1) for y in x], 'id': lab}
         return {'v': pyobjs.enc_val(x, addr_of)}
+
+    def calls():
+        return [[ids[id(o)], name] for o, name in CALL_LOG if id(o) in ids]
 
     def snapshot():
         out = []
@@ -692,13 +1199,32 @@ def run_impl(case):
     out['heap'] = heap
     out['classes'] = class_info()
     mut = case.get('mut')
+    del CALL_LOG[:]
     old = signal.signal(signal.SIGALRM, _alarm)
     signal.setitimer(signal.ITIMER_REAL, 3.0, 1.0)
     try:
         try:
-            if mut is None:
-                res = glom.glom(gtarget, spec, **gkw)
-                out['impl'] = {'ok': enc_res(res, nw)}
+            if co:
+                try:
+                    res = glom.glom(gtarget, spec, **gkw)
+                    o = 'dflt' if res is DEFAULT else {'ok': enc_res(res, nw)}
+                except (RecursionError, Timeout, Unmodelled):
+                    raise
+                except Exception as e:
+                    o = {'other': exc_name(e)}
+                out['impl'] = {'co': o}
+            elif mut is None:
+                # a read: the outcome, the target afterwards, the calls made
+                try:
+                    res = glom.glom(gtarget, spec, **gkw)
+                    o = {'ok': enc_res(res, nw)}
+                except PathAccessError:
+                    o = 'pae'
+                except (RecursionError, Timeout, Unmodelled):
+                    raise
+                except Exception as e:
+                    o = {'other': exc_name(e)}
+                out['impl'] = {'read': {'out': o, 'heap': snapshot(), 'calls': calls()}}
             else:
                 err = None
                 try:
@@ -721,6 +1247,8 @@ def run_impl(case):
                 out['impl'] = {'mutated': snapshot(), 'err': err}
         except Timeout:
             out['impl'] = 'timeout'
+        except Unmodelled:
+            out['impl'] = 'skip'
         except PathAccessError:
             out['impl'] = 'pae'
         except RecursionError:
@@ -734,12 +1262,18 @@ def run_impl(case):
 
 
 def key(case):
-    return {'heap': case['heap'], 'target': case['target'], 'spelling': case['spelling'],
-            'mut': case.get('mut'), 'sroot': case.get('sroot')}
+    return {'heap': case['heap'], 'target': case['target'], 'spelling': case.get('spelling'),
+            'mut': case.get('mut'), 'sroot': case.get('sroot'), 'path_star': case.get('path_star', True),
+            'co': case.get('co')}
 
 
 def nontrivial(case, verdict):
     b = verdict.get('branch', '')
+    if b.startswith('co-'):
+        return True
+    if 'staroff:' in b:
+        # the switch is off: the case is about `*` / `**` segments being plain keys
+        return True
     return '-x0-X0-' not in b and not b.endswith('-pae')
 
 
@@ -753,6 +1287,23 @@ def mut_final_ok(parts):
 
 def shrink(case):
     base = {k: v for k, v in case.items() if not k.startswith('impl') and k != 'classes'}
+    if case.get('co'):
+        co = case['co']
+        for i in range(len(co['alts'])):
+            if len(co['alts']) > 1:
+                c = dict(base)
+                c['co'] = dict(co, alts=co['alts'][:i] + co['alts'][i + 1:])
+                yield c
+            # the alternative itself, shrunk like a spelling
+            sub = dict(base, spelling=co['alts'][i], co=None)
+            for c2 in shrink(dict(sub, heap=case['heap'])):
+                if c2.get('heap') == case['heap'] and c2.get('spelling'):
+                    c = dict(base)
+                    c['co'] = dict(co, alts=co['alts'][:i] + [c2['spelling']] + co['alts'][i + 1:])
+                    yield c
+        for c in _shrink_heap(case, base):
+            yield c
+        return
     sp = case['spelling']
     if 'parts' in sp:
         ps = sp['parts']
@@ -762,6 +1313,28 @@ def shrink(case):
             if case.get('mut') and not mut_final_ok(c['spelling']['parts']):
                 continue
             yield c
+        # a nested Path argument replaced by its own parts
+        for i, part in enumerate(ps):
+            if 'path' in part:
+                c = dict(base)
+                c['spelling'] = {'parts': ps[:i] + list(part['path']) + ps[i + 1:]}
+                yield c
+        # single ops of a T part (a call goes with its attribute step)
+        for i, part in enumerate(ps):
+            ops = part.get('t') or []
+            j = 0
+            while j < len(ops) and len(ops) > 1:
+                if ops[j][0] == '(':
+                    j += 1
+                    continue
+                width = 2 if j + 1 < len(ops) and ops[j + 1][0] == '(' else 1
+                rest = ops[:j] + ops[j + width:]
+                if rest:
+                    c = dict(base)
+                    c['spelling'] = {'parts': ps[:i] + [{'t': rest}] + ps[i + 1:]}
+                    if not (case.get('mut') and not mut_final_ok(c['spelling']['parts'])):
+                        yield c
+                j += width
     else:
         segs = sp['text'].split('.')
         for i in range(len(segs)):
@@ -772,7 +1345,52 @@ def shrink(case):
                     continue
                 c['spelling'] = {'text': '.'.join(rest)}
                 yield c
+    for c in _shrink_heap(case, base):
+        yield c
+
+
+def _refs_in(j, out):
+    if isinstance(j, dict):
+        if set(j) == {'r'}:
+            out.append(j)
+        else:
+            for v in j.values():
+                _refs_in(v, out)
+    elif isinstance(j, list):
+        for v in j:
+            _refs_in(v, out)
+
+
+def _gc(case, base):
+    """the case without the heap cells nothing refers to (addresses renumbered)"""
     heap = case['heap']
+    seen, todo = set(), []
+    _refs_in(case['target'], todo)
+    while todo:
+        a = todo.pop()['r']
+        if a not in seen and a < len(heap):
+            seen.add(a)
+            _refs_in(heap[a]['v'], todo)
+    if len(seen) == len(heap):
+        return None
+    c = json.loads(json.dumps(base))
+    remap = {a: i for i, a in enumerate(sorted(seen))}
+    c['heap'] = [c['heap'][a] for a in sorted(seen)]
+    refs = []
+    _refs_in(c['heap'], refs)
+    _refs_in(c['target'], refs)
+    for r in refs:
+        if r['r'] not in remap:
+            return None
+        r['r'] = remap[r['r']]
+    return c
+
+
+def _shrink_heap(case, base):
+    heap = case['heap']
+    g = _gc(case, base)
+    if g is not None:
+        yield g
     for a, cell in enumerate(heap):
         for i in range(len(cell['v'])):
             if cell['k'] in ('tuple',):
